@@ -309,7 +309,10 @@ type c12Field struct {
 }
 
 // c12Shape is a thrift.TStruct writing the fields in order; Read skips a struct.
-type c12Shape struct{ fields []c12Field }
+type c12Shape struct {
+	fields []c12Field
+	slim   bool // fields of base type are written through the lib/go/encoder.go helpers
+}
 
 func (s *c12Shape) String() string {
 	parts := make([]string, len(s.fields))
@@ -330,6 +333,42 @@ func (s *c12Shape) Write(ctx context.Context, p thrift.TProtocol) error {
 			if err == nil {
 				err = e
 			}
+		}
+		if len(f.kind) > 2 && f.kind[0] == 'n' && f.kind[1] >= '1' && f.kind[1] <= '3' {
+			// the part sits inside a nested struct, d levels down; struct-typed fields and the string /
+			// binary leaves are written the way code generated with `-gen go:slim` writes them: through
+			// the runtime helpers of lib/go/encoder.go
+			inner := &c12Shape{slim: true, fields: []c12Field{{"i64", f.n % 7}}}
+			if f.kind[1] == '1' {
+				inner.fields = append(inner.fields, c12Field{f.kind[2:], f.n})
+			} else {
+				inner.fields = append(inner.fields, c12Field{"n" + string(f.kind[1]-1) + f.kind[2:], f.n})
+			}
+			if i%2 == 1 {
+				inner.fields[0], inner.fields[1] = inner.fields[1], inner.fields[0]
+			}
+			if err := frugal.WriteStructWithContext(ctx, p, inner, "f", id); err != nil {
+				return err
+			}
+			continue
+		}
+		if s.slim && (f.kind == "string" || f.kind == "binary" || f.kind == "i64" || f.kind == "bool" || f.kind == "byte") {
+			switch f.kind {
+			case "string":
+				err = frugal.WriteStringWithContext(ctx, p, strings.Repeat("s", f.n), "f", id)
+			case "binary":
+				err = frugal.WriteBinaryWithContext(ctx, p, bytes.Repeat([]byte{0xb1}, f.n), "f", id)
+			case "i64":
+				err = frugal.WriteI64WithContext(ctx, p, int64(f.n)*1000003, "f", id)
+			case "bool":
+				err = frugal.WriteBoolWithContext(ctx, p, f.n%2 == 1, "f", id)
+			case "byte":
+				err = frugal.WriteByteWithContext(ctx, p, int8(f.n), "f", id)
+			}
+			if err != nil {
+				return err
+			}
+			continue
 		}
 		switch f.kind {
 		case "string":
@@ -444,7 +483,7 @@ func (s *c12Shape) Read(ctx context.Context, p thrift.TProtocol) error {
 	return p.Skip(ctx, thrift.STRUCT)
 }
 
-var c12BigKinds = []string{"string", "string", "binary", "list", "strlist", "map"}
+var c12BigKinds = []string{"string", "string", "binary", "list", "strlist", "map", "n1string", "n2string", "n3binary", "n2strlist", "n1map"}
 var c12SmallKinds = []string{"bool", "byte", "i64", "string", "binary"}
 
 // c12GenShape: one big part of about `big` encoded bytes placed first, middle or last
@@ -457,9 +496,9 @@ func c12GenShape(r *Rng, big int) (*c12Shape, string) {
 	switch bk {
 	case "list":
 		bf = c12Field{bk, big / 4}
-	case "strlist":
+	case "strlist", "n2strlist":
 		bf = c12Field{bk, big / 9}
-	case "map":
+	case "map", "n1map":
 		bf = c12Field{bk, big / 7}
 	default:
 		bf = c12Field{bk, big}
@@ -499,7 +538,7 @@ func c12GenShape(r *Rng, big int) (*c12Shape, string) {
 		}
 		where = "middle"
 	}
-	return &c12Shape{fs}, bk + "-" + where
+	return &c12Shape{fields: fs}, bk + "-" + where
 }
 
 // c12Record runs the encoder over the shape into the recorder.
@@ -742,6 +781,7 @@ func c12Bucket(n int) string {
 
 func runC12(r *Rng, n int) {
 	c12KnownWitness()
+	c12HelperCheck()
 	for i := 0; i < n; i++ {
 		switch {
 		case i%5 < 2: // op programs on the buffer
@@ -770,9 +810,12 @@ func runC12(r *Rng, n int) {
 		case i%5 < 4: // a real protocol writing a shape
 			c12ProtoCase(r, i)
 		default:
-			if r.Chance(35) {
+			switch k := r.Intn(100); {
+			case k < 30:
 				c12SendCase(r, i)
-			} else {
+			case k < 42:
+				c12SeqCase(r, i, []string{"http-t", "http-c"})
+			default:
 				c12CallCase(r, i)
 			}
 		}
